@@ -319,6 +319,14 @@ fn compile_mint_block(tx: &tir::Tx) -> Result<Option<primitives::Mint>, Error> {
         (None, None) => None,
     };
 
+    // a policy whose mints and burns cancel out must not stay behind as an empty map
+    let all = all
+        .map(|mut policies| {
+            policies.retain(|_, assets| !assets.is_empty());
+            policies
+        })
+        .filter(|policies| !policies.is_empty());
+
     Ok(all)
 }
 
